@@ -246,6 +246,13 @@ theorem sweepCandidate_iff (p : Bytes) : sweepCandidate p ↔ isEntryPath p = tr
       · simpa [slash] using hns
       · rw [entryName_iff]; simpa [hasSuffix] using hsuf
 
+/-! ### the trim record -/
+
+/-- The trim record is the plain decimal Unix time (format `"%d"`). -/
+theorem trimRecord_eq (now : Int) : trimRecord now = fmtInt (unixOf now) := by
+  simp [trimRecord, sprintf, sprintfGo, Gen.Cache.trimFormat, padLeft]
+
+
 /-! ### the due test -/
 
 theorem wrap64_id (x : Int) (h0 : -(2 ^ 63) ≤ x) (h1 : x < 2 ^ 63) : wrap64 x = x := by
